@@ -124,6 +124,27 @@ def apply_r11_r12(text, log, ctx):
     return text
 
 
+R15A_RE = re.compile(r"(?P<recv>\b[A-Za-z_][A-Za-z_0-9]*(?:\s*\.\s*[A-Za-z_][A-Za-z_0-9]*)*)\s*\.\s*entry\(")
+R15B_RE = re.compile(r"\bstd::collections::hash_map::Entry::")
+
+
+def apply_r15(text, log, ctx):
+    """R15: `RECV.entry(K)` -> `verif_entry(&mut RECV, K)` and `std::collections::hash_map::Entry::X` -> `Entry::X`:
+    std's Entry API has no vstd specification and its types are opaque; the unit supplies a model of it
+    (Entry/OccupiedEntry/VacantEntry holding the reborrowed map, with prophecy contracts; trusted std model)."""
+    def a(m):
+        recv = re.sub(r"\s+", "", m.group("recv"))
+        new = f"verif_entry(&mut {recv}, "
+        log.append({"rule": "R15", "in": ctx, "before": re.sub(r"\s+", " ", m.group(0)), "after": new})
+        return new
+    text = R15A_RE.sub(a, text)
+
+    def b(m):
+        log.append({"rule": "R15", "in": ctx, "before": m.group(0), "after": "Entry::"})
+        return "Entry::"
+    return R15B_RE.sub(b, text)
+
+
 def apply_rewrites(text, log, ctx):
     """The declared mechanical rewrites R1,R2/R3,R6,R9 on a piece of extracted source text.
     Works on the token stream of `text`; returns new text."""
@@ -131,6 +152,8 @@ def apply_rewrites(text, log, ctx):
         text = apply_r10(text, log, ctx)
     if "R11" in ACTIVE_RULES:
         text = apply_r11_r12(text, log, ctx)
+    if "R15" in ACTIVE_RULES:
+        text = apply_r15(text, log, ctx)
     if "R13" in ACTIVE_RULES:
         # R13: alpha-rename the method type parameter the derive macros use (__E/__D) to the name the trait
         # declaration uses (E/D): Verus mis-translates inherited ensures when the names differ (internal error)
